@@ -29,6 +29,7 @@ LEVEL = {
     "not_decided": "nothing in the statement beyond the trusted base (CPython await delegation passes "
                    "yielded values / sent replies unchanged; no dynamic code tricks).",
 }
+LEVEL["decided"] += ' (R17.6) any_iter awaits every awaitable it is given and iterates only what is not awaitable (R19.2, shared).'
 
 BANNED = {
     "asyncio", "trio", "anyio", "curio", "threading", "_thread", "time", "selectors", "select",
